@@ -17,7 +17,7 @@ type c07req struct {
 	keys   [][]byte
 	vals   map[string][]byte // MGET: value per key (nil = absent)
 	raw    []byte
-	slots  []int       // distinct slots in order of first appearance
+	slots  []int // distinct slots in order of first appearance
 	groups map[int][]int
 	// per fragment behaviour
 	delCount map[int]int64
